@@ -265,6 +265,15 @@ pub fn run_order(p: &Proto, order: &[usize], seed: u64) -> Result<(), (String, S
                 if (sec.asset, sec.value) != b.out_asset_value[j] {
                     return Err(("unblind-mismatch".into(), format!("output {}: ({}, {})", j, sec.asset, sec.value)));
                 }
+                match guard(|| crate::oracle::rewind::open(s, &tx.output[j], rsk)) {
+                    Ok(Ok(op)) => {
+                        use elements::hashes::Hash as _;
+                        if op.asset != b.out_asset_value[j].0.to_byte_array() || op.value != b.out_asset_value[j].1 || &op.abf[..] != sec.asset_bf.into_inner().as_ref() {
+                            return Err(("independent-wallet-opens-to-other-secrets".into(), format!("output {}", j)));
+                        }
+                    }
+                    other => return Err(("independent-wallet-cannot-open".into(), format!("output {}: {:?}", j, other.map(|x| x.map(|_| ()))))),
+                }
                 let (asset, value) = b.out_asset_value[j];
                 let gen_ = o.asset_comm.unwrap();
                 let comm = o.amount_comm.unwrap();
